@@ -31,22 +31,30 @@ def gen(rng, i):
 
 
 def selection_oracle(ctx, case, q):
-    """both real scope builders give the same scope, hence the same resolution, for every op"""
-    m = pl.read(case.mb)
-    cal = calibrator.Calibrator.__new__(calibrator.Calibrator)
-    pg = params_generator.ParamsGenerator.__new__(params_generator.ParamsGenerator)
-    for sg in m.subgraphs:
-        for op in sg.operators:
-            s1 = calibrator.Calibrator._get_op_scope(cal, op, sg.tensors)
-            s2 = params_generator.ParamsGenerator._get_op_scope(pg, op, sg.tensors)
-            key = orc.op_key_of(m.operatorCodes[op.opcodeIndex].builtinCode)
-            if key is None:
-                continue
-            a1, _ = q._recipe_manager.get_quantization_configs(key, s1)
-            a2, _ = q._recipe_manager.get_quantization_configs(key, s2)
-            if s1 != s2 or a1 != a2:
-                ctx.fail(f"calibration and quantization see different scopes/selection for an op: {s1!r} vs {s2!r}", case.replay(), "scope-differs")
-                return
+    """both real scope builders give the same scope, hence the same resolution, for every op.
+    Uses real Calibrator / ParamsGenerator objects; if their (private) scope builders are renamed by a
+    refactor this oracle is skipped (the behavioural oracle and the correspondence remain)."""
+    try:
+        cal = calibrator.Calibrator(case.mb)
+        pg = params_generator.ParamsGenerator(case.mb)
+        # prime per-object state the way a real calibration does (initialisation walks all subgraphs)
+        if q.need_calibration:
+            cal._initialize_model_qsvs(q._recipe_manager)
+        for (sgc, sgp) in zip(cal._flatbuffer_model.subgraphs, pg.flatbuffer_model.subgraphs):
+            for opc, opp in zip(sgc.operators, sgp.operators):
+                s1 = cal._get_op_scope(opc, sgc.tensors)
+                s2 = pg._get_op_scope(opp, sgp.tensors)
+                key = orc.op_key_of(pg.flatbuffer_model.operatorCodes[opp.opcodeIndex].builtinCode)
+                if key is None:
+                    continue
+                a1, _ = q._recipe_manager.get_quantization_configs(key, s1)
+                a2, _ = q._recipe_manager.get_quantization_configs(key, s2)
+                if s1 != s2 or a1 != a2:
+                    ctx.fail(f"calibration and quantization see different scopes/selection for an op: {s1!r} vs {s2!r}", case.replay(), "scope-differs")
+                    return
+        ctx.tag("scope_builders_compared")
+    except (AttributeError, TypeError):
+        ctx.tag("scope_oracle_unavailable")
 
 
 def run(ctx):
